@@ -330,8 +330,11 @@ def r4(ctx, R):
             continue
         if graph is not None and norm(lps[0].iter.args[0]) != graph:
             R.bad(fi, lps[0], "descendants are enumerated on the graph from which the edges were already removed")
-        if [norm(a) for a in lps[0].iter.args[1:2]] != ["node"]:
-            R.bad(fi, lps[0], "descendants are not enumerated from the edited node")
+        want_src = "nodes_removed" if spec == "SpaceUpdater.del_defined_space" else "node"
+        if [norm(a) for a in lps[0].iter.args[1:2]] != [want_src]:
+            R.bad(fi, lps[0], "descendants are not enumerated from %s" % (
+                "every node of the deleted subtree: spaces inheriting from a child of the deleted space keep its members"
+                if want_src != "node" else "the edited node"))
         if spec != "SpaceUpdater.del_defined_space":
             direct = [r_ for r_ in refs if not any(r_ in list(ast.walk(l)) for l in lps)]
             if not direct:
